@@ -60,7 +60,7 @@ C01_SCHEMAS = {
         'scalar *= sqrt2^(-deg(v0))',
     ],
     'basic_rules::remove_id_unchecked': [
-        'add_edge_smart(inc(v)[0].v, inc(v)[1].v, match (inc(v)[0].et, inc(v)[1].et) {(N, N) => N; (N, H) => H; (H, N) => H; (H, H) => N; (Wio, _) | (_, Wio) => !})',
+        'add_edge_smart(inc(v)[0].v, inc(v)[1].v, match (inc(v)[0].et, inc(v)[1].et) {(N, N) => N; (N, H) => H; (N, Wio) => !; (H, N) => H; (H, H) => N; (H, Wio) => !; (Wio, N) => !; (Wio, H) => !; (Wio, Wio) => !})',
         'remove_vertex(v)',
     ],
     'basic_rules::remove_pair_unchecked': [
